@@ -881,5 +881,100 @@ pub fn all() -> Vec<Witness> {
             case: case_of(main, vec![], b"", vec![]),
         });
     }
+    // ---- negative zero printed with a space and a minus ----
+    {
+        let mut b = B(0);
+        let main = vec![
+            b.print(
+                Dev::Screen,
+                vec![
+                    e(Expr::Num(NumLit {
+                        text: "(0 * (-1.5))".into(),
+                        value: 0.0,
+                    })),
+                    PItem::Semi,
+                    e(lit("|")),
+                ],
+            ),
+            b.s(StmtKind::End),
+        ];
+        out.push(Witness {
+            name: "fixed-negative-zero-printed-with-space-and-minus",
+            property: "C16",
+            class: "Layout",
+            key: "",
+            what: "PRINT 0 * (-1.5) wrote \" -0 \": a negative zero got the leading space of a non-negative number and the minus sign of its digits",
+            case: case_of(main, vec![], b"", vec![]),
+        });
+    }
+    // ---- RESUME after an error in an ELSEIF condition ----
+    {
+        let mut b = B(0);
+        let quot = Expr::Quot(bx(int(6)));
+        let then_b = vec![b.trace("a")];
+        let b2 = vec![b.trace("b")];
+        let else_b = vec![b.trace("c")];
+        let mut main = vec![
+            b.s(StmtKind::OnErrorGoto("H1".into())),
+            b.s(StmtKind::If {
+                cond: Expr::Cmp(CmpOp::Eq, bx(var("G1%")), bx(int(99))),
+                then_b,
+                elseifs: vec![(Expr::Cmp(CmpOp::Eq, bx(quot), bx(int(6))), b2)],
+                else_b: Some(else_b),
+            }),
+            b.trace("done"),
+            b.s(StmtKind::End),
+            b.s(StmtKind::Label("H1".into())),
+            b.s(StmtKind::Assign {
+                var: "DZ%".into(),
+                expr: int(1),
+            }),
+            b.s(StmtKind::Resume(ResumeKind::Bare)),
+        ];
+        let _ = &mut main;
+        out.push(Witness {
+            name: "fixed-resume-after-error-in-elseif-condition",
+            property: "C05",
+            class: "ControlFlow",
+            key: "",
+            what: "RESUME after an error in an ELSEIF condition left the whole IF statement instead of evaluating the condition again (the ELSEIF line had no statement address)",
+            case: case_of(main, vec![], b"", vec![]),
+        });
+    }
+    // ---- RESUME after an error in the expression of a later CASE ----
+    {
+        let mut b = B(0);
+        let quot = Expr::Quot(bx(int(6)));
+        let c1 = vec![b.trace("one")];
+        let c2 = vec![b.trace("six")];
+        let ce = vec![b.trace("else")];
+        let main = vec![
+            b.s(StmtKind::OnErrorGoto("H1".into())),
+            b.s(StmtKind::Select {
+                expr: int(6),
+                cases: vec![
+                    (vec![CaseSpec::Simple(int(1))], c1),
+                    (vec![CaseSpec::Simple(quot)], c2),
+                ],
+                else_b: Some(ce),
+            }),
+            b.trace("done"),
+            b.s(StmtKind::End),
+            b.s(StmtKind::Label("H1".into())),
+            b.s(StmtKind::Assign {
+                var: "DZ%".into(),
+                expr: int(1),
+            }),
+            b.s(StmtKind::Resume(ResumeKind::Bare)),
+        ];
+        out.push(Witness {
+            name: "fixed-resume-after-error-in-later-case-expression",
+            property: "C05",
+            class: "ControlFlow",
+            key: "",
+            what: "RESUME after an error in the expression of the second or a later CASE jumped to END SELECT instead of evaluating the expression again",
+            case: case_of(main, vec![], b"", vec![]),
+        });
+    }
     out
 }
